@@ -106,10 +106,11 @@ def run(ctx: Ctx, prop: str, fresh) -> int:
     first: dict = {}
     for (h, rot), obs in zip(tasks, res):
         first.setdefault((h[0], rot), obs[0])
-    n = 0
+    n = nviol = 0
     for (h, rot), obs in zip(tasks, res):
         for i, (a, o) in enumerate(zip(h, obs)):
             n += 1
+            nviol += o != "ok"
             ctx.nontrivial.add(f"pick:{a}:{i}")
             if prop == "C14" and o != "ok":
                 ctx.violation(f"picktable:produce with a key set, no kid, alg={a} (call {i + 1} of the process) -> {o.split(':')[0]}",
@@ -117,7 +118,7 @@ def run(ctx: Ctx, prop: str, fresh) -> int:
             if prop == "C20" and i > 0 and first.get((a, rot)) == "ok" and o != "ok":
                 ctx.violation(f"picktable:alg={a} served as the first call of a process, refused after [{' '.join(h[:i])}] -> {o.split(':')[0]}",
                               {"pick_history": h, "rot": rot, "call": i + 1, "observed": o})
-    if sum(1 for obs in res for o in obs if o == "ok") < 1000:
+    if sum(1 for obs in res for o in obs if o == "ok") < 1000 and not nviol:          # (a library that fails every call is reported above, not here)
         raise MachineryError("vacuous pick-table pass: " + json.dumps([o for obs in res for o in obs if o != "ok"][:5]))
     ctx.notes["pick_table_histories"] = len(tasks)
     return n
